@@ -46,7 +46,6 @@ where
     const NUL: u8 = 0x00;
 
     let mut iter = frequencies.iter().enumerate();
-    let mut prev_sym = 0;
 
     while let Some((sym, &f)) = iter.next() {
         if f == 0 {
@@ -56,7 +55,8 @@ where
         // SAFETY: `sym <= ALPHABET_SIZE`.
         write_u8(writer, sym as u8)?;
 
-        if sym > 0 && sym - 1 == prev_sym {
+        // A run length follows a symbol iff the previous symbol is also in the table.
+        if sym > 0 && frequencies[sym - 1] > 0 {
             let i = sym + 1;
             let len = frequencies[i..].iter().position(|&g| g == 0).unwrap_or(0);
 
@@ -65,17 +65,14 @@ where
 
             write_itf8(writer, i32::from(f))?;
 
-            for (sym, &g) in iter.by_ref().take(len) {
+            for (_, &g) in iter.by_ref().take(len) {
                 write_itf8(writer, i32::from(g))?;
-                prev_sym = sym;
             }
 
             continue;
         }
 
         write_itf8(writer, i32::from(f))?;
-
-        prev_sym = sym;
     }
 
     write_u8(writer, NUL)?;
